@@ -300,7 +300,6 @@ func e2eC16(repo, dir string, vals map[string]string) ([]string, error) {
 	return bad, nil
 }
 
-
 // e2eStale: whatever the previous content of the output file, a successful run leaves exactly the bytes
 // of a clean generation.
 func e2eStale(e *e2eEnv, pkg string) []string {
@@ -362,7 +361,10 @@ func e2eCustomCLI(repo string, e *e2eEnv) []string {
 	e.bin = bin
 	defer func() { e.bin = saved }()
 	out := filepath.Join(e.dir, "good/generated/generated.go")
-	for _, c := range []struct{ args []string; want string }{
+	for _, c := range []struct {
+		args []string
+		want string
+	}{
 		{[]string{"gen", "./good"}, "//go:build !goverter"},
 		{[]string{"gen", "-output-constraint", "custom && !goverter", "./good"}, "//go:build custom && !goverter"},
 	} {
